@@ -705,8 +705,14 @@ func (c *StructFieldCode) getAnonymousStruct() *StructCode {
 	return c.getStruct()
 }
 
+// isStringOption reports whether the string option of the tag applies to the member: like
+// encoding/json it looks through one pointer ( *int is quoted, **int is written as it is ).
+func isStringOption(code *Opcode, tag *runtime.StructTag) bool {
+	return tag.IsString && code.PtrNum <= 1
+}
+
 func optimizeStructHeader(code *Opcode, tag *runtime.StructTag) OpType {
-	headType := code.ToHeaderType(tag.IsString)
+	headType := code.ToHeaderType(isStringOption(code, tag))
 	if tag.IsOmitEmpty {
 		headType = headType.HeadToOmitEmptyHead()
 	}
@@ -714,7 +720,7 @@ func optimizeStructHeader(code *Opcode, tag *runtime.StructTag) OpType {
 }
 
 func optimizeStructField(code *Opcode, tag *runtime.StructTag) OpType {
-	fieldType := code.ToFieldType(tag.IsString)
+	fieldType := code.ToFieldType(isStringOption(code, tag))
 	if tag.IsOmitEmpty {
 		fieldType = fieldType.FieldToOmitEmptyField()
 	}
